@@ -310,7 +310,10 @@ pub fn set_agent_factory(f: AgentFactory) {
     let _ = GLOBAL_AGENT.set(f);
 }
 
-fn default_agent(_: &Cfg, truth: Arc<TruthLog>) -> swimos_api::agent::BoxAgent {
+fn default_agent(cfg: &Cfg, truth: Arc<TruthLog>) -> swimos_api::agent::BoxAgent {
+    if cfg.extra == "pair-agent" {
+        return crate::agent2::make(truth);
+    }
     let lifecycle = TestLifecycle { log: truth };
     Box::new(AgentModel::new(TestAgent::default, lifecycle.into_lifecycle()))
 }
